@@ -319,6 +319,10 @@ else:
                     body_ = [x for x in g_.body() if not (isinstance(x, ast.Expr) and isinstance(x.value, ast.Constant))]
                     if len(body_) == 1 and isinstance(body_[0], ast.Return) and body_[0].value is not None:
                         names[k_] = unparse(body_[0].value)
+                    elif body_ and isinstance(body_[-1], ast.Return) and body_[-1].value is not None and \
+                            all(isinstance(x, ast.Assign) for x in body_[:-1]):
+                        # temporaries, then the returned expression: what matters is the outermost call of that expression
+                        names[k_] = unparse(body_[-1].value)
             sanitised = 'sanitize_molecule_string(' in want
             ok = len(names) == 1 and (names[0].startswith('sanitize_molecule_string(') if sanitised
                                       else names[0].endswith('.moleculeName'))
